@@ -86,7 +86,7 @@ func genCase(t *rapid.T) drive.CrashCase {
 		})
 		prev = to
 	}
-	return drive.CrashCase{Program: p, Rounds: rounds}
+	return drive.CrashCase{Program: p, Rounds: rounds, ChildVerifies: rapid.Bool().Draw(t, "childverifies")}
 }
 
 func TestProp(t *testing.T) {
